@@ -709,8 +709,13 @@ func Check(env *core.Env, rep *core.Report) *core.Result {
 	}
 	// binding self-test: a select row with one observed path dropped must be flagged
 	selftest := map[string]interface{}{"skipped": "no selection row with an observed path"}
-	for _, r := range rows {
-		if r["kind"] == "select" && len(r["observed"].([]int)) > 0 {
+	// (taken from a row that TLC accepted: a row that is already wrong could become right)
+	isBad := map[int]bool{}
+	for _, bi := range v.Bad {
+		isBad[bi-1] = true
+	}
+	for ri, r := range rows {
+		if r["kind"] == "select" && len(r["observed"].([]int)) > 0 && !isBad[ri] {
 			c := rowT{}
 			for k, x := range r {
 				c[k] = x
